@@ -322,3 +322,18 @@ def truncateAt (strict : Bool) (p : Params) (snap now : List Chunk) : List Chunk
   if ch.n = 0 ∨ p.dryRun = true then now else deleteUpTo (snap.getD (ch.n - 1) default).id now
 
 end Logrange.Truncate
+
+/-! ## chunk objects after their removal (journal library, `ctrlr.chunkWrapper`)
+
+`Chunks()` hands out chunk objects; `DeleteChunks` closes the removed ones asynchronously and sets their inner chunk to
+nil; `Id()`, `Size()`, `Count()` read it without the wrapper's lock. `closed` = the ids whose wrappers have been closed.
+`none` = the nil dereference (a panic; on a server the end of the process). -/
+namespace Logrange.Truncate
+
+def derefId (closed : List Nat) (c : Chunk) : Option Nat := if closed.contains c.id then none else some c.id
+
+/-- the argument `cks[idx-1].Id()` of a statement's `DeleteChunks` call, evaluated when the wrappers in `closed` are gone -/
+def deleteArg (strict : Bool) (p : Params) (snap : List Chunk) (closed : List Nat) : Option Nat :=
+  derefId closed (snap.getD ((choose strict p snap).n - 1) default)
+
+end Logrange.Truncate
